@@ -113,10 +113,12 @@ fn gen_case(t: &mut Tape) -> Case {
                 fields.push(Field::new("Connection", *t.pick(&["close", "keep-alive"])));
             }
         }
-        let reason = match t.weighted(&[4, 1, 1]) {
+        let reason = match t.weighted(&[4, 1, 1, 2]) {
             0 => Some(b"Reason".to_vec()),
             1 => None,
-            _ => Some(vec![]),
+            2 => Some(vec![]),
+            // a status line far longer than the usual ones
+            _ => Some(vec![b'r'; t.range(45, 200)]),
         };
         RespSpec { head: RespHead { v11, status, reason, fields }, body_wire, payload, close_delimited }
     };
@@ -346,7 +348,7 @@ pub static DEF: PropDef = PropDef {
     id: "C11",
     rule: "random cases: request {POST, PUT, PATCH, GET / DELETE with despite-method} x HTTP/1.0 / 1.1 x Connection x framing {chunked, \
 Content-Length, explicit TE} x body 0..60 bytes, always Expect: 100-continue; server head = bare 100 (HTTP/1.0 / 1.1; reason none / \
-empty / Continue / 60 bytes) followed by a final response, or any other status 101..599 bare, with 1..4 fields, with a body \
+empty / Continue / 60 bytes) followed by a final response, or any other status 101..599 (reason none / empty / short / 45..200 bytes) bare, with 1..4 fields, with a body \
 (Content-Length / chunked / close-delimited). For EVERY look-prefix length p in 0..=|head| a fresh flow is driven into Await100, the window \
 grows to p in 1..4 steps, then the caller proceeds (decided or giving up), and the exchange is run to Cleanup (12 % under a generated \
 schedule). Oracle per window: partial 100 => Ok(0) and still awaiting; complete 100 => consumed exactly, then SendBody; other status: \
